@@ -479,7 +479,8 @@ _TL_PARAMS = "{S A O : Type} (E : env S A O) (n : Z)"
 
 
 def _tl(name, func, bind, params, out):
-    return Kernel(name, "wrapper/misc.py", "TimeLimit", func, bind, _TL_PARAMS + params, out, prims=_TL_PRIMS, carrier="Q")
+    return Kernel(name, ["wrapper/misc.py", "wrapper/base_wrapper.py"], ["TimeLimit", "AbstractWrapper"], func, bind, _TL_PARAMS + params, out,
+                  prims=_TL_PRIMS, carrier="Q")
 
 
 def _aw_self():
